@@ -31,7 +31,9 @@ def runner_ctx(runner_id: str) -> RunnerContext:
 
 
 def quiet() -> None:
+    import warnings
     logging.disable(logging.CRITICAL)
+    warnings.filterwarnings("ignore")
 
 
 def make_app(kind: str, scratch: str | None = None, app_id: str | None = None,
